@@ -14,6 +14,7 @@ import (
 	"hash/fnv"
 	"reflect"
 	"strings"
+	"time"
 	"unicode/utf8"
 
 	"github.com/emersion/go-webdav/carddav"
@@ -58,6 +59,11 @@ type Case struct {
 	Gen     string      `json:"gen,omitempty"`      // generated (oversized) body
 	Chunk   int         `json:"chunk,omitempty"`
 	Early   bool        `json:"early,omitempty"`
+	// AnswerAfter > 0: the fake answers after reading that many upload bytes.
+	AnswerAfter int64 `json:"answer_after,omitempty"`
+	// Up scripts the caller side of Create: Size bytes in Writes Write calls,
+	// stopping (or not) at the first Write error, then Close.
+	Up *Upload `json:"upload,omitempty"`
 	// W is the workload the case belongs to, Kind the body kind.
 	W    string `json:"workload"`
 	Kind string `json:"kind"`
@@ -110,7 +116,16 @@ func (cs *Case) witness() *Case {
 	return &w
 }
 
+type Upload struct {
+	Size      int  `json:"size"`
+	Writes    int  `json:"writes"`
+	StopOnErr bool `json:"stop_on_err,omitempty"`
+}
+
 type outcome struct {
+	hang       bool   // quiescent with the caller blocked inside go-webdav
+	hangSite   string // innermost go-webdav function of the blocked caller
+	watchdog   bool   // neither returned nor quiescent within the watchdog
 	panicked   bool
 	panicVal   interface{}
 	stack      string
@@ -121,13 +136,56 @@ type outcome struct {
 }
 
 func execCase(m *minfo, cs *Case) *outcome {
-	f := &fakeHTTP{status: cs.Status, header: cs.Header, body: cs.bytes(), chunk: cs.Chunk, early: cs.Early}
+	f := &fakeHTTP{status: cs.Status, header: cs.Header, body: cs.bytes(), chunk: cs.Chunk, early: cs.Early, answerAfter: cs.AnswerAfter}
 	oc := &outcome{}
-	oc.panicked, oc.panicVal, oc.stack = fw.Guard(func() { oc.raw, oc.err = invoke(m, f) })
-	oc.calls = f.calls
-	oc.bodyClosed = f.bodyClosed
-	return oc
+	done := make(chan struct{})
+	gid := make(chan int64, 1)
+	go func() {
+		gid <- curGoroutineID()
+		oc.panicked, oc.panicVal, oc.stack = fw.Guard(func() { oc.raw, oc.err = invoke(m, f, cs) })
+		close(done)
+	}()
+	caller := <-gid
+	monitor := int64(-2)
+	t := time.NewTimer(hangInterval)
+	defer t.Stop()
+	start := time.Now()
+	quiet := 0
+	for {
+		select {
+		case <-done:
+			oc.calls = f.calls
+			oc.bodyClosed = f.bodyClosed
+			return oc
+		case <-t.C:
+		}
+		if monitor == -2 {
+			monitor = curGoroutineID()
+		}
+		if f.scriptDone() {
+			if hang, stack, site := quiescentHang(monitor, caller); hang {
+				quiet++
+				if quiet >= hangPolls {
+					// abandon the caller goroutine (it owns oc): fresh outcome
+					return &outcome{hang: true, hangSite: site, stack: stack, calls: 1}
+				}
+			} else {
+				quiet = 0
+			}
+		} else {
+			quiet = 0
+		}
+		if time.Since(start) > hangWatchdog {
+			return &outcome{watchdog: true, calls: 1}
+		}
+		t.Reset(hangInterval)
+	}
 }
+
+// hangsSeen counts hangs per finding key in this worker: once a class has
+// hung three times, its remaining cases are skipped (each would cost the
+// full quiescence wait and leave another goroutine behind).
+var hangsSeen = map[string]int{}
 
 func runCase(c *fw.Ctx, cs *Case) {
 	m := methodByName(cs.Method)
@@ -135,10 +193,26 @@ func runCase(c *fw.Ctx, cs *Case) {
 		c.Inconclusive("C14: unknown method " + cs.Method)
 		return
 	}
+	if hangsSeen[cs.Method+"|"+cs.Class] >= 3 {
+		c.Observe("hang", "cases skipped after 3 hangs of their class", 1)
+		return
+	}
 	c.Journal(cs.witness())
 	oc := execCase(m, cs)
 	c.JournalDone()
 	c.Eval(1)
+	if oc.watchdog {
+		c.Inconclusive(fmt.Sprintf("C14: %s (%s) neither returned nor became quiescent within %v", cs.Method, cs.Class, hangWatchdog))
+		return
+	}
+	if oc.hang {
+		hangsSeen[cs.Method+"|"+cs.Class]++
+		c.Observe("hang", cs.Method+" blocked in "+oc.hangSite, 1)
+		c.Report(cs.Method+" | "+cs.Class+" | hang (blocked in "+oc.hangSite+")",
+			fmt.Sprintf("%s never returns: the fake has finished its script, no goroutine can run, the caller is blocked in %s", cs.Method, oc.hangSite),
+			map[string]interface{}{"case": cs.witness(), "blocked_goroutine": oc.stack})
+		return
+	}
 	judge(c, m, cs, oc)
 }
 
@@ -418,13 +492,13 @@ func init() {
 		Replay: replay,
 		Rule: "Every public client method of webdav/caldav/carddav (23 methods) against a scripted fake HTTP client. " +
 			"matrix (exhaustive): HTTP status 100..599 x body kind {none, text/plain, DAV:error as application/xml, DAV:error as text/xml, garbage with XML type, valid multistatus for the method, valid object} x method, " +
-			"plus Create with the answer sent before the upload is read; valid: randomly populated conformant multistatus documents in random lexical forms; " +
+			"plus Create with the answer sent before the upload is read; uploads: Create/Write*/Close scripted on both sides (answer before, after 1 byte, after half, after all of the upload x 0/100/1 MiB in 0/1/3/256 Writes x Close after the first Write error or after ignoring errors x 10 statuses, thorough +39); every call runs on its own goroutine and a call that neither returns nor can be woken (quiescence rule) is a hang finding; valid: randomly populated conformant multistatus documents in random lexical forms; " +
 			"placements (exhaustive): every assignment of {200,204,102,302,403,404,500,507} to response status / needed-property propstat / optional-property propstat over 2 (thorough 3) responses per list method and sync-collection, and over the single response of PROPFIND-Depth-0 methods; " +
 			"truncation (exhaustive): every prefix of one (thorough 3) valid multistatus document per multistatus method and of valid iCalendar/vCard bodies; corrupt: well-formed multistatus whose needed value / status line / embedded object cannot be interpreted; " +
 			"mutations: random byte edits of valid documents and objects (no-panic only); oversized: 8 MiB bodies; headers: DAV/ETag/Location variants. " +
 			"distinct_nontrivial counts distinct (method, HTTP status class, body kind or per-response status-class pattern, outcome) keys.",
 		Assumptions: []string{
-			"the fake always drains or closes the request body, sets Response.Request and hands out a finite in-memory body: a call can only block inside the library",
+			"the fake always drains or closes the request body, sets Response.Request and hands out a finite in-memory body: a call can only block inside the library; every call runs on its own goroutine and a hang is decided by quiescence (fake returned from Do, no goroutine but the monitor running/runnable/sleeping/in a syscall for 60 consecutive polls, caller blocked below a go-webdav frame), a 60 s wall-clock watchdog only yields inconclusive",
 			"'interpretable' bodies are conformant RFC 4918 multistatus documents holding the properties the method needs, all under 200 propstats (optional properties may be absent), or RFC 5545/6350 objects with the matching Content-Type",
 			"don't-cares (statement silent): 2xx-but-not-200 propstats; optional properties under failing propstats (error or omission, never the value); failing responses inside a list (error or omission); 207 answers to DELETE/COPY/MOVE; DTD-invalid but well-formed multistatus (missing href, two hrefs, empty current-user-principal, status without reason phrase, invalid percent escape in an href); OPTIONS answers without the addressbook class; malformed vCard lines (go-vcard skips them); result order",
 			"1xx/3xx statuses returned by the HTTP client are plain non-2xx statuses",
